@@ -69,6 +69,8 @@ type writeSet struct {
 	names     map[string]bool
 	allHeaps  bool
 	allGhost  bool
+	fields    map[string]map[int]bool // heap var -> fields written through a field path
+	whole     map[string]bool         // heap var written other than through a field path / fresh allocation
 }
 
 func (w *writeSet) add(o *writeSet) {
@@ -77,6 +79,23 @@ func (w *writeSet) add(o *writeSet) {
 	}
 	for n := range o.names {
 		w.names[n] = true
+	}
+	for hv, fs := range o.fields {
+		if w.fields == nil {
+			w.fields = map[string]map[int]bool{}
+		}
+		if w.fields[hv] == nil {
+			w.fields[hv] = map[int]bool{}
+		}
+		for f := range fs {
+			w.fields[hv][f] = true
+		}
+	}
+	for hv := range o.whole {
+		if w.whole == nil {
+			w.whole = map[string]bool{}
+		}
+		w.whole[hv] = true
 	}
 	w.allHeaps = w.allHeaps || o.allHeaps
 	w.allGhost = w.allGhost || o.allGhost
@@ -138,6 +157,32 @@ func (fr *Frame) recordWrite(name string) {
 	ws.names[name] = true
 }
 
+// recordKind refines the last recorded write of a heap variable: "field" (through a field
+// path), "fresh" (initialisation of a freshly allocated object) or "whole".
+func (fr *Frame) recordKind(name, kind string, field int) {
+	t := fr.top()
+	ws := t.writes[t.curBlk]
+	if ws == nil {
+		return
+	}
+	switch kind {
+	case "field":
+		if ws.fields == nil {
+			ws.fields = map[string]map[int]bool{}
+		}
+		if ws.fields[name] == nil {
+			ws.fields[name] = map[int]bool{}
+		}
+		ws.fields[name][field] = true
+	case "fresh":
+	default:
+		if ws.whole == nil {
+			ws.whole = map[string]bool{}
+		}
+		ws.whole[name] = true
+	}
+}
+
 func (fr *Frame) recordHavocAll(heaps, ghost bool) {
 	t := fr.top()
 	ws := t.writes[t.curBlk]
@@ -151,7 +196,14 @@ func (fr *Frame) recordHavocAll(heaps, ghost bool) {
 
 // setVar updates a state variable through a named constant.
 func (fr *Frame) setVar(st *State, name, term string) *State {
+	return fr.setVarKind(st, name, term, "whole", 0)
+}
+
+func (fr *Frame) setVarKind(st *State, name, term, kind string, field int) *State {
 	fr.recordWrite(name)
+	if isHeapVar(name) {
+		fr.recordKind(name, kind, field)
+	}
 	c := fr.vc.freshConst(name, fr.vc.stateVarSort(name))
 	fr.vc.assume(eq(c, term))
 	return st.set(name, c)
@@ -474,6 +526,9 @@ func (fr *Frame) store(st *State, l *Loc, val string) *State {
 	if l.addr != "" {
 		obj := fmt.Sprintf("(select %s %s)", root, l.addr)
 		nr = fmt.Sprintf("(store %s %s %s)", root, l.addr, fr.updPath(obj, l.path, val))
+		if len(l.path) > 0 && !l.path[0].isIndex && strings.HasPrefix(l.svar, "H_") {
+			return fr.setVarKind(st, l.svar, nr, "field", l.path[0].field)
+		}
 	} else {
 		nr = fr.updPath(root, l.path, val)
 	}
@@ -746,6 +801,14 @@ func (fr *Frame) enterLoop(li *loopInfo) (*State, string) {
 	// havoc what the loop modifies
 	ws := fr.loopWrites(li)
 	st := pre.havoc(fmt.Sprintf("L%d", li.ordinal), ws.names, ws.allHeaps, ws.allGhost)
+	if !ws.allHeaps {
+		st.havocFields = map[string]map[int]bool{}
+		for hv, fs := range ws.fields {
+			if !ws.whole[hv] {
+				st.havocFields[hv] = fs
+			}
+		}
+	}
 	atL := vc.freshConst(fmt.Sprintf("atloop%d", li.ordinal), "Bool")
 	vc.assume(implies(atL, or(gs...)))
 	for _, in := range b.Instrs {
@@ -1052,7 +1115,7 @@ func (fr *Frame) allocInstr(st *State, x *ssa.Alloc) *State {
 	var r string
 	st, r = fr.alloc(st)
 	hv := vc.heapVar(et)
-	st = fr.setVar(st, hv, fmt.Sprintf("(store %s %s %s)", st.get(hv), r, vc.zero(et)))
+	st = fr.setVarKind(st, hv, fmt.Sprintf("(store %s %s %s)", st.get(hv), r, vc.zero(et)), "fresh", 0)
 	fr.def(x, r)
 	fr.locs[x] = &Loc{svar: hv, addr: r, typ: et, nilOK: true}
 	return st
@@ -1321,10 +1384,38 @@ func (fr *Frame) typeAssert(st *State, g string, x *ssa.TypeAssert) *State {
 	iv := fr.val(x.X)
 	at := x.AssertedType
 	var okc, val string
-	if _, isIface := at.Underlying().(*types.Interface); isIface {
-		// interface-to-interface: succeeds iff non-nil and implements; "implements" is unconstrained
-		impl := vc.freshConst("impl", "Bool")
-		okc = and(not(eq(fmt.Sprintf("(ityp %s)", iv), "0")), impl)
+	if ifc, isIface := at.Underlying().(*types.Interface); isIface {
+		// interface-to-interface: succeeds iff the dynamic type implements the interface. Decided
+		// for the named types of the repository (T and *T); any other dynamic type is unconstrained
+		// in the comma-ok form and refused in the panicking form.
+		var alts []string
+		for path, p := range vc.eng.allPkgs {
+			if !strings.HasPrefix(path, modPath) {
+				continue
+			}
+			for _, n := range p.Scope().Names() {
+				tn, ok := p.Scope().Lookup(n).(*types.TypeName)
+				if !ok || tn.IsAlias() {
+					continue
+				}
+				if _, isI := tn.Type().Underlying().(*types.Interface); isI {
+					continue
+				}
+				for _, cand := range []types.Type{tn.Type(), types.NewPointer(tn.Type())} {
+					if types.Implements(cand, ifc) {
+						alts = append(alts, eq(fmt.Sprintf("(ityp %s)", iv), fmt.Sprint(vc.typeID(cand))))
+					}
+				}
+			}
+		}
+		sort.Strings(alts)
+		known := or(alts...)
+		if x.CommaOk {
+			impl := vc.freshConst("impl", "Bool")
+			okc = and(not(eq(fmt.Sprintf("(ityp %s)", iv), "0")), or(known, impl))
+		} else {
+			okc = and(not(eq(fmt.Sprintf("(ityp %s)", iv), "0")), known)
+		}
 		val = iv
 	} else {
 		id := vc.typeID(at)
